@@ -134,8 +134,6 @@ SCALARS = ["Etot", "Eelec", "Enuc", "Hf", "e_gap", "e_mo", "q", "cis_energies", 
 def evaluate(mol, coords_list, params, active_state=None):
     """One call of the real driver on a homogeneous batch: the same molecule at len(coords_list) geometries.
     Returns a list of per-geometry observation dicts (numpy)."""
-    import torch
-
     from . import sp
 
     params = copy.deepcopy(params)
@@ -165,8 +163,6 @@ def evaluate(mol, coords_list, params, active_state=None):
         o["coords"] = np.asarray(coords_list[i], float)
         out.append(o)
     del molecule, es
-    if torch.is_grad_enabled():
-        pass
     return out
 
 
